@@ -290,7 +290,7 @@ impl Property for P {
     }
     fn cases(tier: Tier) -> u64 {
         match tier {
-            Tier::Quick => 200_000,
+            Tier::Quick => 600_000,
             Tier::Thorough => 8_000_000,
         }
     }
@@ -325,3 +325,47 @@ impl Property for P {
 
 #[allow(dead_code)]
 fn _unused(_: Split) {}
+
+pub fn decode(data: &[u8]) -> Case {
+    let mut r = crate::fuzzdec::Reader::new(data);
+    let mode = r.u8();
+    match mode >> 6 {
+        0 | 1 | 2 => {
+            let spec = crate::fuzzdec::optspec(&mut r, false, true);
+            let columns = 1 + r.pick(8);
+            let g = super::c20::GAPS;
+            let gaps = (
+                g[r.pick(g.len())].to_string(),
+                g[r.pick(g.len())].to_string(),
+                g[r.pick(g.len())].to_string(),
+            );
+            let prefix = crate::gen::INDENTS[r.pick(crate::gen::INDENTS.len())].1.to_string();
+            let lb = r.u8();
+            let limit = if lb > 250 { usize::MAX } else { (lb % 9) as usize };
+            Case::Text { text: crate::fuzzdec::text(mode, r.rest()), spec, columns, gaps, prefix, limit }
+        }
+        _ => {
+            let pen = PenSpec {
+                nline: r.u16() as usize, overflow: r.u16() as usize, fraction: r.u8() as usize,
+                short_last: r.u8() as usize, hyphen: r.u8() as usize,
+            };
+            fn f(b: u8) -> f64 {
+                match b {
+                    0..=199 => (b % 50) as f64 / 2.0,
+                    200..=209 => -((b - 200) as f64),
+                    210 => f64::NAN, 211 => f64::INFINITY, 212 => f64::NEG_INFINITY,
+                    213 => f64::MAX, 214 => f64::MIN, 215 => 1e154, 216 => 1e200, 217 => -0.0,
+                    218 => f64::MIN_POSITIVE, 219 => 9007199254740992.0,
+                    _ => (b as f64) * 1e17,
+                }
+            }
+            let nw = r.pick(5);
+            let widths: Vec<f64> = (0..nw).map(|_| f(r.u8())).collect();
+            let mut frags = Vec::new();
+            while r.remaining() >= 3 && frags.len() < 64 {
+                frags.push(Frag { w: f(r.u8()), ws: f(r.u8()), p: f(r.u8()) });
+            }
+            Case::Frags { frags, widths, pen }
+        }
+    }
+}
